@@ -299,6 +299,20 @@ def check_server(prop, tier, replay):
         states += r["distinct"]
         trans += r["generated"]
         mcs.append({"scenario": name, "mode": "liveness", "distinct": r["distinct"]})
+    if prop in ("C15", "C17") and not os.environ.get("VERIF_SKIP_MC"):
+        # two cancels during the constants exchange: cancel() always returns (repaired tree); the pinned handshake
+        # (cancel waits for the constants task) must deadlock in the model -- negative control of the liveness check
+        sc2 = scen(n=2, cancel=2)
+        r = run_mc(wd, "live2", sc2, [], props=["C15Liveness"], spec="MCFair", workers=4, timeout=1500)
+        if not r["ok"]:
+            raise vlib.ToolError("C15Liveness with two cancels fails on the spec:\n" + vlib.strip_tlc(r["out"])[-2500:])
+        states += r["distinct"]
+        trans += r["generated"]
+        mcs.append({"scenario": "n2 two cancels", "mode": "liveness", "distinct": r["distinct"]})
+        neg = dict(sc2, fix=dict(sc2["fix"], cancelAbortsConstsTask=False))
+        r = run_mc(wd, "live2neg", neg, [], props=["C15Liveness"], spec="MCFair", workers=4, timeout=1500)
+        if r["ok"]:
+            raise vlib.ToolError("negative control failed: the pinned cancel-waits-for-constants-task model satisfies C15Liveness")
     # (2) runs of the real code
     jobs = []
     nscript = 0
